@@ -4,7 +4,7 @@
    about graph structure (blank-node inlining, lists, RDF/XML, JSON-LD, HexTuples, prefixes, numeric
    shorthand) is conformance testing in harness/c03.py and has no theorem here.
    Proofs are in Codec/Proofs.v. *)
-From RV Require Import Codec.Model Codec.Proofs Codec.TurtleProofs.
+From RV Require Import Codec.Model Codec.Proofs Codec.TurtleProofs Codec.Hext.
 
 (* K1. The four chained str.replace calls of nt._quote_encode are one pass over the characters. *)
 Theorem C03_nt_quote_one_pass : forall s, nt_encode_body s = flat_map nt_esc1 s.
@@ -89,19 +89,19 @@ Theorem C03_turtle_string_roundtrip_short : forall s, mem 10 s = false -> ttl_re
 Proof. exact ttl_short_roundtrip. Qed.
 Print Assumptions C03_turtle_string_roundtrip_short.
 
-(* K2, three-quote form (a line feed in the string).  The pipeline "replace backslash; replace triple quotes; patch a
-   trailing quote; replace CR" is one structural pass over the string (two characters of look-ahead, the previous
-   character remembered) ... *)
-Theorem C03_turtle_long_one_pass : forall s, s <> [] ->
-  replace1 13 [92; 114]
-    (patch_last (if contains3 s then rep3 (replace1 92 [92; 92] s) else replace1 92 [92; 92] s)) = Fg ee None s.
-Proof. exact ttl_long_body_is_Fg. Qed.
+(* K2, three-quote form (a line feed in the string), the code as repaired by fix commit 13d00653.  The pipeline
+   "replace backslash; escape a final quote; replace triple quotes; replace CR" is one structural pass over the
+   string (three characters of look-ahead) ... *)
+Theorem C03_turtle_long_one_pass : forall s,
+  let e1 := patch_last (replace1 92 [92; 92] s) in
+  replace1 13 [92; 114] (if contains3 e1 then rep3 e1 else e1) = Fq ee s.
+Proof. exact ttl_long_body_is_Fq. Qed.
 Print Assumptions C03_turtle_long_one_pass.
 
-(* ... which SinkParser.strconst inverts (3/4/5-quote end rule included), whatever non-quote text follows. *)
-Theorem C03_turtle_strconst_inverts : forall s prev z, no_quote_head z = true ->
-  strconst true (Fg ee prev s ++ QQQ ++ z) = Some (s, z).
-Proof. exact strconst_Fg. Qed.
+(* ... which SinkParser.strconst inverts, whatever non-quote text follows the closing delimiter. *)
+Theorem C03_turtle_strconst_inverts : forall s z, no_quote_head z = true ->
+  strconst true (Fq ee s ++ QQQ ++ z) = Some (s, z).
+Proof. exact strconst_Fq. Qed.
 Print Assumptions C03_turtle_strconst_inverts.
 
 (* K2, FULL STATEMENT: every string of code points, both forms, quotes anywhere. *)
@@ -125,6 +125,25 @@ Theorem C03_ttl_spec_reading : forall s text back,
   ttl_spec (TtlString s) (ObsString text back) = true <-> back = Some s.
 Proof. exact ttl_spec_reading. Qed.
 Print Assumptions C03_ttl_spec_reading.
+
+(* K3. One HexTuples row (the six strings between json.dumps and json.loads; the JSON text is CPython's and is
+   trusted).  FULL STATEMENT (does not hold): forall t, wf_triple t = true -> hext_parse (hext_row t) = Some (hext_norm t, None),
+   hext_norm being the one allowed identification (a simple literal comes back as xsd:string).  The proof forces
+   hext_ok: no blank-node label contains the two characters "_:" and no IRI begins with '_' (finding F15q). *)
+Theorem C03_hext_row_roundtrip_partial : forall t, wf_triple t = true -> hext_ok t = true ->
+  hext_parse (hext_row t) = Some (hext_norm t, None).
+Proof. exact hext_row_roundtrip. Qed.
+Print Assumptions C03_hext_row_roundtrip_partial.
+
+Theorem C03_hext_row_roundtrip_refuted :
+  exists t1 t2 : triple, wf_triple t1 = true /\ wf_triple t2 = true /\ t1 <> t2 /\ hx_kf (HxRow t1) = 1 /\
+    hext_parse (hext_row t1) = hext_parse (hext_row t2).
+Proof. eexists. eexists. exact hext_label_merge_witness. Qed.
+Print Assumptions C03_hext_row_roundtrip_refuted.
+
+Theorem C03_hx_spec_model_partial : forall c, hx_kf c = 0 -> hx_spec c (hx_model c) = true.
+Proof. exact hx_spec_model. Qed.
+Print Assumptions C03_hx_spec_model_partial.
 
 (* graph-level suite: no model; the checker only says "the round trip was fine" *)
 Theorem C03_rt_spec_model : forall c, rt_kf c = 0 -> rt_spec c (rt_model c) = true.
